@@ -30,6 +30,9 @@ pub struct GateDecl {
 pub struct Hop {
     /// (bitrate, latency ns) of the channel on this hop, if any
     pub channel: Option<(usize, u64)>,
+    /// jitter of that channel (the delay of the hop then lies in [latency + transmission, + jitter))
+    #[serde(default)]
+    pub jitter_ns: u64,
 }
 
 #[derive(Debug, Clone, Serialize, Deserialize, PartialEq)]
@@ -65,6 +68,10 @@ pub struct Case {
     pub hops: Vec<Hop>,
     pub calls: Vec<ConnectCall>,
     pub sends: Vec<Send>,
+    /// the third module that sends through gate references shuts itself down in the event of its last send
+    /// (what it sent in that event is delivered all the same)
+    #[serde(default)]
+    pub proxy_shutdown: bool,
 }
 
 #[derive(Debug, Clone)]
@@ -100,6 +107,7 @@ struct Node {
     idx: usize,
     /// (time, gate name, pos, body, delay, seq, end gate to use by reference (proxy sends))
     plan: Vec<(u64, String, usize, usize, u64, u64, Option<usize>)>,
+    shutdown_after_last: bool,
 }
 
 fn module_index(path: &str) -> usize {
@@ -123,6 +131,9 @@ impl Module for Node {
                     send_in(out, gate, Duration::from_nanos(delay));
                 } else {
                     send(out, gate);
+                }
+                if self.shutdown_after_last && msg.header().id as usize + 1 == self.plan.len() {
+                    current().shutdown();
                 }
             } else if delay > 0 {
                 send_in(out, (name.as_str(), pos), Duration::from_nanos(delay));
@@ -171,6 +182,11 @@ fn tx_ns(len: usize, bitrate: usize) -> u64 {
     let num = (len as u128) * 8 * 1_000_000_000u128;
     let b = bitrate as u128;
     ((num + b / 2) / b) as u64
+}
+
+/// sum of the jitters of the hops (0: the arrival time is exact)
+fn path_jitter(case: &Case) -> u64 {
+    case.hops.iter().filter(|h| h.channel.is_some()).map(|h| h.jitter_ns).sum()
 }
 
 fn path_delay(case: &Case, body: usize) -> u64 {
@@ -238,10 +254,10 @@ pub fn execute(case: &Case) -> (Vec<Finding>, Obs) {
         for (i, plan) in plans.into_iter().enumerate() {
             if i == case.modules {
                 if !plan.is_empty() {
-                    sim.node("px", Node { idx: i, plan });
+                    sim.node("px", Node { idx: i, plan, shutdown_after_last: case.proxy_shutdown });
                 }
             } else {
-                sim.node(format!("m{i}"), Node { idx: i, plan });
+                sim.node(format!("m{i}"), Node { idx: i, plan, shutdown_after_last: false });
             }
         }
         // gates (clusters are created as a whole)
@@ -268,7 +284,7 @@ pub fn execute(case: &Case) -> (Vec<Finding>, Obs) {
         for c in &case.calls {
             let (a, b) = if c.forward { (c.hop, c.hop + 1) } else { (c.hop + 1, c.hop) };
             let ch = case.hops[c.hop].channel.map(|(bitrate, lat)| {
-                Channel::new(ChannelMetrics::new(bitrate, Duration::from_nanos(lat), Duration::ZERO, ChannelDropBehaviour::Queue(None)))
+                Channel::new(ChannelMetrics::new(bitrate, Duration::from_nanos(lat), Duration::from_nanos(case.hops[c.hop].jitter_ns), ChannelDropBehaviour::Queue(None)))
             });
             let before: Option<(Vec<GateKind>, Vec<Option<usize>>)> = if c.repeat {
                 Some((gates.iter().map(|g| g.kind()).collect(), gates.iter().map(|g| g.next_gate().and_then(|n| gate_id(case, &n))).collect()))
@@ -410,10 +426,11 @@ pub fn execute(case: &Case) -> (Vec<Finding>, Obs) {
             f.push(("wrong-receiver", format!("message {} sent on gate {src} was handled by module m{}, the far end gate {dst} belongs to m{want_module}", s.seq, a.module)));
             continue;
         }
-        if a.t != want_t {
+        let jit = path_jitter(case);
+        if a.t < want_t || a.t > want_t + jit {
             f.push((
                 "arrival-time",
-                format!("message {} ({} bytes) sent at {} ns over {} hops: expected arrival at {want_t} ns (sum of the per-hop delays), observed {} ns", s.seq, s.body + HEADER, s.time_ns + s.delay_ns, k, a.t),
+                format!("message {} ({} bytes) sent at {} ns over {} hops: expected arrival at {want_t} ns (sum of the per-hop delays; plus at most {jit} ns of jitter), observed {} ns", s.seq, s.body + HEADER, s.time_ns + s.delay_ns, k, a.t),
             ));
         }
         let sender = if s.proxy { case.modules } else { case.gates[src].owner };
@@ -450,7 +467,7 @@ pub fn execute(case: &Case) -> (Vec<Finding>, Obs) {
                 continue;
             }
             let want_back = a.t + path_delay(case, s.body);
-            if b.t != want_back {
+            if b.t < want_back || b.t > want_back + jit {
                 f.push(("arrival-time", format!("message {} echoed at {} ns: expected back at {want_back} ns, observed {} ns", s.seq, a.t, b.t)));
             }
             if b.sender_id != ids[want_module] {
@@ -535,7 +552,12 @@ pub fn gen_case(rng: &mut Rng, k: usize, order: Option<(Vec<usize>, u32)>) -> Ca
     // long chains: mostly without channels, so that many hops are traversed within one event
     let (num, den) = if k > 16 && rng.chance(2, 3) { (1, 15) } else { (1, 2) };
     let hops: Vec<Hop> = (0..k)
-        .map(|_| Hop { channel: if rng.chance(num, den) { Some((*rng.pick(BITRATES), *rng.pick(LATS))) } else { None } })
+        .map(|_| Hop {
+            channel: if rng.chance(num, den) { Some((*rng.pick(BITRATES), *rng.pick(LATS))) } else { None },
+            // a jitter well below the smallest transmission time in play would hide nothing; keep it small against the
+            // latencies so that the window stays tight
+            jitter_ns: if rng.chance(1, 4) { *rng.pick(&[1u64, 1_000, 50_000]) } else { 0 },
+        })
         .collect();
     let (perm, orient) = match order {
         Some(o) => o,
@@ -564,11 +586,12 @@ pub fn gen_case(rng: &mut Rng, k: usize, order: Option<(Vec<usize>, u32)>) -> Ca
         let echo = rng.chance(1, 4);
         sends.push(Send { time_ns: t, reverse: rng.chance(1, 2), body, delay_ns, seq, proxy: rng.chance(1, 5), echo });
         // uncontended: the next message is sent after this one has arrived (and come back)
-        let one_way: u64 = hops.iter().filter_map(|h| h.channel).map(|(b, l)| l + tx_ns(1500, b)).sum::<u64>();
+        let one_way: u64 = hops.iter().filter(|h| h.channel.is_some()).map(|h| h.channel.map_or(0, |(b, l)| l + tx_ns(1500, b)) + h.jitter_ns).sum::<u64>();
         let gap: u64 = one_way * (1 + u64::from(echo)) + delay_ns + 1 + rng.below(1000);
         t += gap;
     }
-    Case { modules, gates, hops, calls, sends }
+    let proxy_shutdown = rng.chance(1, 3);
+    Case { modules, gates, hops, calls, sends, proxy_shutdown }
 }
 
 fn case_hash(c: &Case) -> u64 {
@@ -629,6 +652,9 @@ pub fn cmd(args: &Args) -> Report {
         rep.count("third_peer_rejections", obs.third_peer_rejections);
         rep.count("sends_by_a_third_module_through_a_gate_reference", obs.proxy_sends);
         rep.count("messages_echoed_back_over_the_chain", obs.echoes);
+        if case.proxy_shutdown && case.sends.iter().any(|s| s.proxy) {
+            rep.count("chains_whose_third_module_shuts_down_in_the_event_of_its_last_send", 1);
+        }
         rep.count("hops_total", case.hops.len() as u64);
         rep.max("max_hops", case.hops.len() as u64);
         // longest run of hops without a channel (all of them are traversed within one event)
